@@ -1,15 +1,14 @@
 use crate::diagnostic_emitter::MosResult;
 use crate::impl_request_handler;
-use crate::lsp::{to_location, LspContext, RequestHandler};
+use crate::lsp::{to_line_col, to_location, LspContext, RequestHandler};
 use itertools::Itertools;
 use lsp_types::request::{PrepareRenameRequest, Rename};
 use lsp_types::{
     PrepareRenameResponse, RenameParams, TextDocumentPositionParams, TextEdit, WorkspaceEdit,
 };
-use mos_core::codegen::{DefinitionType, QueryTraversalStep};
+use mos_core::codegen::{DefinitionLocation, DefinitionType};
 use mos_core::parser::code_map::LineCol;
-use mos_core::parser::{Identifier, IdentifierPath};
-use std::collections::HashMap;
+use mos_core::parser::Identifier;
 
 pub struct PrepareRenameRequestHandler;
 pub struct RenameHandler;
@@ -107,6 +106,21 @@ impl RequestHandler<PrepareRenameRequest> for PrepareRenameRequestHandler {
     }
 }
 
+/// The names in the text of a definition or a usage, with their offsets (in characters): the text is a single
+/// identifier, except for the argument of an import, which may read 'x as y'
+fn names_in(text: &str) -> Vec<(usize, &str)> {
+    let mut names = vec![];
+    let mut offset = 0;
+    for (idx, word) in text.split_whitespace().enumerate() {
+        let start = offset + text[offset..].find(word).unwrap();
+        offset = start + word.len();
+        if idx != 1 {
+            names.push((text[..start].chars().count(), word));
+        }
+    }
+    names
+}
+
 impl RequestHandler<Rename> for RenameHandler {
     fn handle(
         &self,
@@ -117,7 +131,7 @@ impl RequestHandler<Rename> for RenameHandler {
             Some(cg) => cg,
             None => return Ok(None),
         };
-        let mut codegen = codegen.lock().unwrap();
+        let codegen = codegen.lock().unwrap();
         let mut defs = ctx.find_definitions(codegen.analysis(), &params.text_document_position);
         if defs.is_empty() {
             return Ok(None);
@@ -126,103 +140,68 @@ impl RequestHandler<Rename> for RenameHandler {
         let (def_ty, def) = (def_ty.clone(), def.clone());
         match def_ty {
             DefinitionType::Filename(_) => Ok(None),
-            DefinitionType::Symbol(def_symbol_nx) => {
-                if let Some(location) = &def.location {
+            DefinitionType::Symbol(_) => {
+                if def.location.is_some() {
+                    let slice = |dl: &DefinitionLocation| {
+                        let sl = codegen.analysis().look_up(dl.span);
+                        (sl.begin.column, sl.file.source_slice(dl.span).to_string())
+                    };
+
+                    // A symbol may be known under more than one name ('.import x as y'), and 'super' does not
+                    // name it at all: the name under the cursor is the one that gets renamed
+                    let tree = codegen.tree().clone();
+                    let file = params.text_document_position.text_document.uri.to_file_path().unwrap();
+                    let pos = to_line_col(&params.text_document_position.position);
+                    let old_name = def
+                        .definition_and_usages()
+                        .into_iter()
+                        .filter(|dl| dl.contains(&tree, &file, pos))
+                        .find_map(|dl| {
+                            let (column, text) = slice(dl);
+                            names_in(&text)
+                                .into_iter()
+                                .find(|(offset, name)| {
+                                    pos.column >= column + offset
+                                        && pos.column <= column + offset + name.chars().count()
+                                })
+                                .map(|(_, name)| name.to_string())
+                        });
                     // Symbols that are not named by an identifier ('-' and '+' are defined by a block's braces)
                     // cannot be renamed
-                    let def_text = {
-                        let sl = codegen.analysis().look_up(location.span);
-                        sl.file.source_slice(location.span).to_string()
-                    };
-                    if def_text.is_empty()
-                        || !def_text.chars().all(|c| c.is_alphanumeric() || c == '_')
-                    {
-                        return Ok(None);
-                    }
-
-                    // First, determine all the query steps for every usage
-                    let steps = def
-                        .usages()
-                        .into_iter()
-                        .map(|dl| {
-                            let sl = codegen.analysis().look_up(dl.span);
-                            let path = IdentifierPath::from(sl.file.source_slice(dl.span));
-                            (
-                                dl,
-                                (
-                                    codegen
-                                        .symbols()
-                                        .query_traversal_steps(dl.parent_scope, &path),
-                                    path,
-                                ),
-                            )
-                        })
-                        .collect::<HashMap<_, _>>();
-
-                    // Now, rename the actual symbol
-                    codegen.symbols_mut().rename(
-                        location.parent_scope,
-                        def_symbol_nx,
-                        Identifier::from(params.new_name.as_str()),
-                    );
-
-                    // And rename it across all other paths by which it may be reached
-                    // (other paths may exist due to imports)
-                    for (dl, (steps, _)) in steps.iter() {
-                        if let Some(QueryTraversalStep::Symbol(nx)) = steps.last() {
-                            codegen.symbols_mut().rename(
-                                dl.parent_scope,
-                                *nx,
-                                Identifier::from(params.new_name.as_str()),
-                            );
+                    let old_name = match old_name {
+                        Some(name)
+                            if !Identifier::from(name.as_str()).is_super()
+                                && name.chars().all(|c| c.is_alphanumeric() || c == '_') =>
+                        {
+                            name
                         }
-                    }
+                        _ => return Ok(None),
+                    };
 
-                    // And reconstruct the identifiers
-                    let new_paths = steps
-                        .into_iter()
-                        .filter_map(|(dl, (query_traversal_steps, old_path))| {
-                            let include_super = old_path.contains_super();
-                            codegen
-                                .symbols()
-                                .query_steps_to_path(
-                                    dl.parent_scope,
-                                    &query_traversal_steps,
-                                    include_super,
-                                )
-                                .map(|path| (dl, path))
-                        })
-                        .collect::<HashMap<_, _>>();
-
+                    // Every place where the symbol is defined or used under that name
                     let changes = def
                         .definition_and_usages()
                         .into_iter()
-                        .filter(|dl| {
-                            // A usage that reaches the symbol via 'super' does not mention the symbol's name
-                            let sl = codegen.analysis().look_up(dl.span);
-                            !Identifier::from(sl.file.source_slice(dl.span)).is_super()
-                        })
-                        .map(|dl| {
+                        .flat_map(|dl| {
                             let loc = to_location(codegen.analysis().look_up(dl.span));
-
-                            // We either grab a renamed usage, or we fallback to the name specified by the user for the source definition
-                            let new_text = match new_paths.get(dl) {
-                                Some(new_path) => new_path.to_string(),
-                                _ => params.new_name.clone(),
-                            };
-
-                            let edit = TextEdit {
-                                range: loc.range,
-                                new_text,
-                            };
-                            (loc.uri, edit)
+                            let (_, text) = slice(dl);
+                            names_in(&text)
+                                .into_iter()
+                                .filter(|(_, name)| *name == old_name)
+                                .map(|(offset, name)| {
+                                    let mut range = loc.range;
+                                    range.start.character += offset as u32;
+                                    range.end.character =
+                                        range.start.character + name.chars().count() as u32;
+                                    let edit = TextEdit {
+                                        range,
+                                        new_text: params.new_name.clone(),
+                                    };
+                                    (loc.uri.clone(), edit)
+                                })
+                                .collect_vec()
                         })
                         .into_group_map();
-
-                    // Determining the edits has renamed symbols in the live symbol table, but the documents
-                    // do not change until the client applies the edits: redo the analysis of the documents
-                    drop(codegen);
-                    ctx.perform_codegen();
 
                     return Ok(Some(WorkspaceEdit {
                         changes: Some(changes),
